@@ -488,12 +488,18 @@ def build_summaries(db):
     return s
 
 
-def check_loops(ctx, fn, summaries, rule='R-LOOP'):
+def check_loops(ctx, fn, summaries, rule='R-LOOP', _depth=0):
     """Every loop: on every path from the head back to the head, something the condition reads is
     written (or the condition itself has side effects / calls); condition-less loops need an exit."""
     g = fn.cfg
     count = 0
+    put_back = set()
     for L in cfgmod.loops(fn):
+        if L.id < 0:
+            # a loop that N-INLINE / N-LAMBDA put back from a helper has no blocks in this function's CFG: it is decided in
+            # the helper's own CFG below
+            put_back.add(L.j.get('orig'))
+            continue
         count += 1
         cond = L.child('cond')
         ikey = '%s/loop@%s' % (fn.qn, _loop_ordinal(fn, L))
@@ -539,6 +545,12 @@ def check_loops(ctx, fn, summaries, rule='R-LOOP'):
         else:
             ctx.violation(rule, ikey, L.loc(), 'a path returns to the loop condition without writing any of {%s}: the loop cannot terminate once entered on that path'
                           % ', '.join(sorted(pretty_key(v) for v in vs)), bad_path)
+    if put_back and _depth < 3:
+        db = getattr(ctx, 'db', None)
+        for h in (db.functions if db is not None else []):
+            if h is not fn and h.body is not None and h.file == fn.file and (getattr(h, 'is_lambda', False) or h.linkage in ('static', 'inline')) and h.rec is None \
+                    and any(n.id in put_back for n in h.body.walk() if n.k in ('ForStmt', 'WhileStmt', 'DoStmt')):
+                count += check_loops(ctx, h, summaries, rule, _depth + 1)
     return count
 
 
@@ -660,6 +672,99 @@ def _find_unmodified_cycle(g, fn, entries, cond_blocks, region_ids, vs, summarie
                 continue
             stack.append((s, path + [s], written))
     return None
+
+
+# ------------------------------------------------------------------------------------------------
+# R-REEXAMINE
+
+def check_reexamine(ctx, fn, rule='R-REEXAMINE'):
+    """`a.remove_unordered(i)` moves the last element into slot i. In a loop that walks the array by the index i, the element that
+    arrives there must be looked at too: on every CFG path from the removal back to the loop test the index ends up where it was
+    (it is not advanced, or an advance is compensated: `remove_unordered(i--)` ... `i++`). Any spelling of the loop."""
+    g = fn.cfg
+    count = 0
+    for c in fn.walk():
+        if c.k != 'CXXMemberCallExpr' or not (c.callee or '').endswith('::remove_unordered') or not c.args or c.id < 0:
+            continue
+        a0 = _strip_casts(c.args[0])
+        pre = 0
+        while a0 is not None and a0.k in ('ParenExpr',):
+            a0 = _strip_casts(a0.c[0])
+        if a0 is not None and a0.k == 'UnaryOperator' and a0.op in ('post--', 'post++', '--', '++'):
+            pre = 1 if '+' in a0.op else -1
+            a0 = _strip_casts(a0.child('sub'))
+        if a0 is None or a0.k != 'DeclRefExpr' or a0.dk != 'local':
+            continue
+        key = lvalue_key(a0)
+        L = next((x for x in c.ancestors() if x.k in ('ForStmt', 'WhileStmt', 'DoStmt')), None)
+        if L is None or L.id < 0 or L.child('cond') is None or key not in cond_vars(L.child('cond'))[0]:
+            continue
+        # the array walked by i in this loop is the one the element is removed from
+        count += 1
+        ikey = '%s/remove_unordered(%s)@%d' % (fn.qn, a0.n, c.l)
+        cond_ids = {n.id for n in L.child('cond').walk()}
+        cond_blocks = {b.id for b in g.blocks.values() if any(e in cond_ids for e in b.e)}
+        region_ids = {n.id for n in L.walk()}
+        w = g.where_node(c)
+        if w is None or not cond_blocks:
+            ctx.violation(rule, ikey, c.loc(), 'removal site not found in the CFG (unrecognised)')
+            continue
+
+        def delta_of(n):
+            if n.k == 'UnaryOperator' and n.op in ('++', 'post++', '--', 'post--') and lvalue_key(_strip_casts(n.child('sub'))) == key:
+                return 1 if '+' in n.op else -1
+            if n.k == 'CompoundAssignOperator' and n.op in ('+=', '-=') and lvalue_key(_strip_casts(n.child('lhs'))) == key:
+                v = _strip_casts(n.child('rhs')).cv
+                return None if v is None else (v if n.op == '+=' else -v)
+            if is_assign(n) and n.op == '=' and lvalue_key(_strip_casts(n.child('lhs'))) == key:
+                return None
+            return 0
+        bad = None
+        start_blk = g.blocks[w[0]]
+        d0 = 0
+        unknown = False
+        passed = False
+        for n in g.elements(start_blk):
+            if n.id == c.id:
+                passed = True
+                continue
+            if passed:
+                dd = delta_of(n)
+                if dd is None:
+                    unknown = True
+                else:
+                    d0 += dd
+        # (a post-decrement inside the argument is evaluated before the call element)
+        d0 += pre
+        seen = set()
+        stack = [(s_, d0) for s_ in g.succs(w[0])]
+        if w[0] in cond_blocks:
+            stack = []
+            bad = None if d0 == 0 and not unknown else d0
+        while stack and bad is None and not unknown:
+            b, d = stack.pop()
+            if (b, d) in seen or len(seen) > 5000:
+                continue
+            seen.add((b, d))
+            if b in cond_blocks:
+                if d != 0:
+                    bad = d
+                continue
+            blk = g.blocks[b]
+            ids = list(blk.e) + ([blk.t] if blk.t else [])
+            if (ids and not any(i_ in region_ids for i_ in ids)) or b == g.exit:
+                continue        # left the loop
+            for n in g.elements(blk):
+                dd = delta_of(n)
+                if dd is None:
+                    unknown = True
+                    break
+                d += dd
+            for s_ in g.succs(b):
+                stack.append((s_, d))
+        ctx.check(bad is None and not unknown, rule, ikey, c.loc(), 'after the removal the same index is examined again on every path back to the loop test',
+                  'after `%s` the index `%s` %s before the loop test is reached: the element that remove_unordered moved into that slot is never looked at' % (c.text()[:50], a0.n, 'is reassigned' if unknown else ('has advanced by %s' % bad)))
+    return count
 
 
 # ------------------------------------------------------------------------------------------------
